@@ -217,7 +217,9 @@ def lookups_go_through_visible_modules(F, res, rule="T2"):
 def roots_are_registered_consistently(F, res, rule="T3"):
     from lib import inline as IL
     ap0 = F.fn("ide::base::Change::apply")
-    ap = IL.inlined(F, ap0, want=lambda p: p.startswith("ide::base::Change::") and "{closure" not in p, depth=3)
+    # helpers of Change and accessor-like methods of SourceRoot (`root.module_name_for_path(path)`) are part of the registration
+    ap = IL.inlined(F, ap0, want=lambda p: p.startswith(("ide::base::Change::", "ide::base::SourceRoot::")) and "{closure" not in p and
+                    p.rsplit("::", 1)[-1] not in ("files", "source_files", "new"), depth=3)
     d = FL.Defs(ap)
 
     def calls_named(suffix):
